@@ -1,3 +1,144 @@
 import ClipVerif.Model.Lists
 namespace Proofs.C03
+open Gen Model
+
+theorem bind_ok {α γ : Type} (x : Except Fault α) (k : α → Except Fault γ) (Q : γ → Prop)
+    (hx : ∃ v, x = .ok v) (hk : ∀ v, ∃ r, k v = .ok r ∧ Q r) : ∃ r, (x >>= k) = .ok r ∧ Q r := by
+  obtain ⟨v, rfl⟩ := hx
+  exact hk v
+
+theorem yield_wrap {β : Type} (x : Except Fault (ForInStep β)) (P : β → Prop)
+    (h : ∃ r, x = .ok r ∧ ∃ b', r = .yield b' ∧ P b') : ∃ b', x = .ok (.yield b') ∧ P b' := by
+  obtain ⟨r, hr, b', rfl, hp⟩ := h
+  exact ⟨b', hr, hp⟩
+
+theorem forIn_range'_inv {β : Type} (Inv : Nat → β → Prop) (f : Nat → β → Except Fault (ForInStep β)) :
+    ∀ (n s : Nat) (init : β), Inv s init →
+    (∀ i b, s ≤ i → i < s + n → Inv i b → ∃ b', f i b = .ok (.yield b') ∧ Inv (i+1) b') →
+    ∃ b, forIn (List.range' s n 1) init f = .ok b ∧ Inv (s+n) b := by
+  intro n
+  induction n with
+  | zero => intro s init h0 _; exact ⟨init, rfl, h0⟩
+  | succ n ih =>
+    intro s init h0 hstep
+    obtain ⟨b', hb', hinv'⟩ := hstep s init (Nat.le_refl _) (by omega) h0
+    obtain ⟨b, hb, hinv⟩ := ih (s+1) b' hinv' (fun i b h1 h2 hi => hstep i b (by omega) (by omega) hi)
+    refine ⟨b, ?_, by rw [show s + (n+1) = s + 1 + n by omega]; exact hinv⟩
+    rw [List.range'_succ, List.forIn_cons, hb']
+    exact hb
+
+theorem forIn_range_bind {β γ : Type} (Inv : Nat → β → Prop) (lo hi : Nat) (init : β)
+    (f : Nat → β → Except Fault (ForInStep β)) (k : β → Except Fault γ) (Q : γ → Prop)
+    (h0 : Inv lo init)
+    (hstep : ∀ i b, lo ≤ i → i < hi → Inv i b → ∃ b', f i b = .ok (.yield b') ∧ Inv (i+1) b')
+    (hk : ∀ b, Inv (lo + (hi - lo)) b → ∃ r, k b = .ok r ∧ Q r) :
+    ∃ r, (forIn [lo:hi] init f >>= k) = .ok r ∧ Q r := by
+  rw [Std.Legacy.Range.forIn_eq_forIn_range']
+  have hsz : ([lo:hi] : Std.Legacy.Range).size = hi - lo := by simp [Std.Legacy.Range.size]
+  simp only [hsz]
+  obtain ⟨b, hb, hinv⟩ := forIn_range'_inv Inv f (hi - lo) lo init h0
+    (fun i b h1 h2 hi => hstep i b h1 (by omega) hi)
+  show ∃ r, (forIn (List.range' lo (hi - lo) 1) init f >>= k) = .ok r ∧ Q r
+  rw [hb]
+  exact hk b hinv
+
+
+def get (tmp : Array (Array Point64)) (a b : Int) : Except Fault Point64 :=
+  if a < 0 ∨ b < 0 then .error .index
+  else match tmp[a.toNat]? with
+    | some row => match row[b.toNat]? with
+      | some v => .ok v
+      | none => .error .index
+    | none => .error .index
+
+theorem get_ok (tmp : Array (Array Point64)) (n m : Nat) (hs : tmp.size = n)
+    (hrow : ∀ (i : Nat) (h : i < tmp.size), tmp[i].size = m) (a b : Int)
+    (ha : 0 ≤ a ∧ a < n) (hb : 0 ≤ b ∧ b < m) : ∃ v, get tmp a b = .ok v := by
+  unfold get
+  rw [if_neg (by omega)]
+  have h1 : a.toNat < tmp.size := by omega
+  have h2 : b.toNat < tmp[a.toNat].size := by rw [hrow _ h1]; omega
+  rw [Array.getElem?_eq_getElem h1]
+  simp only
+  rw [Array.getElem?_eq_getElem h2]
+  exact ⟨_, rfl⟩
+
+theorem minkowski_spec (pattern path : Array Point64) (isSum isClosed : Bool) :
+    ∃ r, Model.minkowski pattern path isSum isClosed = .ok r ∧
+      (r.length = (path.size - (if isClosed then 0 else 1)) * pattern.size ∧ ∀ q ∈ r, q.length = 4) := by
+  unfold Model.minkowski
+  generalize htmpdef : Array.map
+          (fun (pp : Point64) =>
+            Array.map
+              (fun (bp : Point64) =>
+                if isSum = true then ({ X := pp.X + bp.X, Y := pp.Y + bp.Y } : Point64) else { X := pp.X - bp.X, Y := pp.Y - bp.Y })
+              pattern)
+          path = tmp
+  have htmp : tmp.size = path.size := by simp [← htmpdef]
+  have hrow : ∀ (i : Nat) (h : i < tmp.size), tmp[i].size = pattern.size := by
+    intro i hi; simp [← htmpdef]
+  clear htmpdef
+  dsimp only
+  generalize hdelta : (if isClosed = true then (0:Int) else 1).toNat = delta
+  generalize hpatLen : pattern.size = patLen at *
+  generalize hpathLen : path.size = pathLen at *
+  have hdl : delta = if isClosed = true then 0 else 1 := by
+    rw [← hdelta]; cases isClosed <;> rfl
+  refine forIn_range_bind
+    (fun i (st : List (List Point64) × Int × Int) =>
+      st.2.2 = (patLen : Int) - 1 ∧ (i < pathLen → 0 ≤ st.2.1 ∧ st.2.1 < pathLen) ∧
+      st.1.length = (i - delta) * patLen ∧ ∀ q ∈ st.1, q.length = 4)
+    _ _ _ _ _ _ ?_ ?_ ?_
+  · refine ⟨rfl, ?_, by simp, by simp⟩
+    intro hlt
+    cases isClosed <;> simp at hdl ⊢ <;> omega
+  · rintro i ⟨res, g, h⟩ hlo hhi ⟨hh, hg, hlen, hq⟩
+    simp only at hh hg hlen hq
+    obtain ⟨hg0, hg1⟩ := hg hhi
+    subst hh
+    dsimp only
+    apply yield_wrap
+    refine forIn_range_bind
+      (fun j (st : List (List Point64) × Int) =>
+        st.2 = (if j = 0 then (patLen : Int) - 1 else (j : Int) - 1) ∧
+        st.1.length = (i - delta) * patLen + j ∧ ∀ q ∈ st.1, q.length = 4)
+      _ _ _ _ _ _ ?_ ?_ ?_
+    · exact ⟨by simp, by simpa using hlen, hq⟩
+    · rintro j ⟨res', h'⟩ _ hj ⟨hh', hlen', hq'⟩
+      simp only at hh' hlen' hq'
+      have hh0 : 0 ≤ h' ∧ h' < patLen := by subst hh'; split <;> omega
+      dsimp only
+      apply yield_wrap
+      refine bind_ok _ _ _ (get_ok tmp pathLen patLen htmp hrow g h' ⟨hg0, hg1⟩ hh0) (fun q0 => ?_)
+      refine bind_ok _ _ _ (get_ok tmp pathLen patLen htmp hrow i h' (by omega) hh0) (fun q1 => ?_)
+      refine bind_ok _ _ _ (get_ok tmp pathLen patLen htmp hrow i j (by omega) (by omega)) (fun q2 => ?_)
+      refine bind_ok _ _ _ (get_ok tmp pathLen patLen htmp hrow g j ⟨hg0, hg1⟩ (by omega)) (fun q3 => ?_)
+      refine ⟨_, rfl, _, rfl, ?_, ?_, ?_⟩
+      · simp
+      · simp only [List.length_cons, hlen']; omega
+      · intro q hq
+        rcases List.mem_cons.mp hq with rfl | hq
+        · split <;> simp
+        · exact hq' q hq
+    · rintro ⟨res', h'⟩ ⟨hh', hlen', hq'⟩
+      simp only at hh' hlen' hq'
+      refine ⟨_, rfl, _, rfl, ?_, ?_, ?_, ?_⟩
+      · simp only [hh']; split <;> omega
+      · intro _; simp only; omega
+      · simp only [hlen', Nat.zero_add, Nat.sub_zero]
+        rw [show i + 1 - delta = (i - delta) + 1 by omega, Nat.add_mul, Nat.one_mul]
+      · exact hq'
+  · rintro ⟨res, g, h⟩ ⟨_, _, hlen, hq⟩
+    simp only at hlen hq
+    refine ⟨_, rfl, ?_, ?_⟩
+    · rw [List.length_reverse, hlen, hdl]
+      congr 1
+      cases isClosed <;> simp <;> omega
+    · intro q hq'; exact hq q (List.mem_reverse.mp hq')
+
+theorem minkowski_total (pattern path : Array Point64) (isSum isClosed : Bool) :
+    ∃ r, Model.minkowski pattern path isSum isClosed = .ok r := by
+  obtain ⟨r, h, _⟩ := minkowski_spec pattern path isSum isClosed
+  exact ⟨r, h⟩
+
 end Proofs.C03
